@@ -18,14 +18,13 @@ theorem st0_K (t : Ty) : K { ty := t, unb := false } (st0 t) :=
 
 /-- every event of the log is at a place of the object's tree; the size is the object's -/
 theorem parseinit_placed {t : Ty} {i : Ini} {st : St} (hm : parseinit t false i = .ok st) (hwf : tyWf t = true)
-    (hlay : layOK t = true) (hmode : (noUnion t || noDesig i) = true) (hso : strsOK i = true) :
+    (hlay : layOK t = true) (hmode : desigsOK (subTys t) i = true) (hso : strsOK i = true) :
     (∀ e ∈ st.log, PlaceEv { ty := t, unb := false } e) ∧ st.top = t.size := by
   have hm' := parseinit_false hm
   rw [parseItem_eq, preStep_nocur (by rfl)] at hm'
   simp only [] at hm'
   have hg := root_geo hwf hlay
-  have hk := itemBody_K hg ⟨rfl, rfl⟩ i (st0 t) st (st0_K t) hso (fun hn => by
-    rw [hn] at hmode; simpa using hmode) hm'
+  have hk := itemBody_K hg ⟨rfl, rfl⟩ (tys := subTys t) (fun x hx => hx) i (st0 t) st (st0_K t) hso hmode hm'
   refine ⟨hk.log, ?_⟩
   rw [hk.top]
   obtain ⟨pl, hs⟩ := hk.stk
@@ -33,7 +32,7 @@ theorem parseinit_placed {t : Ty} {i : Ini} {st : St} (hm : parseinit t false i 
 
 /-- **laminarity**: the hypotheses of `emitdata_image_ev` hold for the log of `parseinit` -/
 theorem parseinit_laminar {t : Ty} {i : Ini} {st : St} (hm : parseinit t false i = .ok st) (hwf : tyWf t = true)
-    (hlay : layOK t = true) (hmode : (noUnion t || noDesig i) = true) (hso : strsOK i = true)
+    (hlay : layOK t = true) (hmode : desigsOK (subTys t) i = true) (hso : strsOK i = true)
     (hcv : constVals t false i = true) : EvsOK [] st.log ∧ ∀ x ∈ adds st.log, Wf st.top x := by
   obtain ⟨hpl, htop⟩ := parseinit_placed hm hwf hlay hmode hso
   have hg := root_geo hwf hlay
